@@ -88,6 +88,11 @@ func JSONWriteFloatProp(b *[]byte, n string, f float64) (notEmpty bool) {
 }
 
 func JSONWriteTimeProp(b *[]byte, n string, t time.Time) (notEmpty bool) {
+	if y := t.UTC().Year(); y < 0 || y > 9999 {
+		// RFC 3339 has four-digit years: what Format would print ("10000-01-01T...", "-0001-...") is not an
+		// instant any reader accepts, the property is left out
+		return false
+	}
 	var tb []byte
 	JSONWrite(&tb, '"')
 	JSONWriteS(&tb, t.UTC().Format(time.RFC3339))
